@@ -41,7 +41,7 @@ def _is_return_const(stmt, value):
 
 
 def _exit(fn):
-    """returns (tests, effects, depth_incr, return_expr, default_frames)"""
+    """returns (tests, effects, depth_incr, return_expr, default_frames, onerror_test)"""
     ar = fn.args
     if [a.arg for a in ar.args] != ["self", "type_", "value", "traceback_"] or ar.vararg or ar.kwarg \
             or ar.posonlyargs or ar.defaults:
@@ -126,6 +126,7 @@ def _exit(fn):
     def int_const(e):
         return isinstance(e, ast.Constant) and type(e.value) is int
 
+    onerror_test = [None]
     phase = 0     # 0 prologue, 1 depth adjusted by decorator, 2 frames added, 3 list built, 4 flag set, 5 logged, 6 onerror, 7 returned
     effects = []
     depth_incr = None
@@ -215,9 +216,12 @@ def _exit(fn):
             effects += ["logInTry", "resetFlagInFinally"]
             phase = 5
             continue
-        if phase == 5 and isinstance(st, ast.If) and U(st.test) == "onerror is not None" and not st.orelse \
+        if phase == 5 and isinstance(st, ast.If) and U(st.test) in ("onerror is not None", "onerror") and not st.orelse \
                 and len(st.body) == 1 and U(st.body[0]) == "onerror(value)":
+            # which test guards the call is extracted (not assumed): `is not None` calls every callable,
+            # a bare truthiness test skips callables that are falsy (`__len__() == 0`, `__bool__() is False`)
             effects.append("onerrorIfNotNone")
+            onerror_test[0] = "isNotNone" if U(st.test) == "onerror is not None" else "truthy"
             phase = 6
             continue
         if phase in (5, 6) and isinstance(st, ast.Return) and st is rest[-1] and st.value is not None:
@@ -228,7 +232,7 @@ def _exit(fn):
         raise Unsupported("unexpected statement in __exit__ (phase %d): %s" % (phase, s))
     if phase != 7 or depth_incr is None:
         raise Unsupported("__exit__ misses options/depth/_frames/log/return")
-    return tests, effects, depth_incr, ret_expr, default_frames
+    return tests, effects, depth_incr, ret_expr, default_frames, onerror_test[0]
 
 
 def _call_args_ok(call):
@@ -313,6 +317,15 @@ def generate():
         if len(catcher) != 1:
             raise Unsupported("Catcher class not found")
         catcher = catcher[0]
+        # building the catcher is INERT: besides the `@logger.catch` shortcut for a bare callable, catch()
+        # only binds `logger = self`, defines the class and returns an instance - it validates nothing, looks
+        # nothing up (levels are resolved when a record is produced) and cannot raise
+        others = [n for n in cbody[:-1] if n is not catcher]
+        shortcut = ("if callable(exception) and (not isclass(exception) or not issubclass(exception, BaseException)):\n"
+                    "    return self.catch()(exception)")
+        if len(others) != 2 or U(others[0]) != shortcut or U(others[1]) != "logger = self" \
+                or cbody.index(others[1]) > cbody.index(catcher):
+            raise Unsupported("catch() does more than build the Catcher: " + " / ".join(U(n)[:90] for n in others))
         last = cbody[-1]
         if not (isinstance(last, ast.Return) and isinstance(last.value, ast.Call)
                 and U(last.value.func) == catcher.name and len(last.value.args) == 1
@@ -342,7 +355,7 @@ def generate():
             raise Unsupported("Catcher.__aexit__ is not `return self.__exit__(type_, value, traceback_, _frames=<n>)`: " + U(axb[0]))
         async_frames = axc.keywords[0].value.value
 
-        tests, effects, depth_incr, ret_expr, sync_frames = _exit(ms["__exit__"])
+        tests, effects, depth_incr, ret_expr, sync_frames, onerror_test = _exit(ms["__exit__"])
         term, typ = Tr({"reraise": ("reraise", "bool")}).tr(ret_expr)
         if typ != "bool":
             raise Unsupported("__exit__ return expression is not boolean")
@@ -397,6 +410,9 @@ def generate():
         body += "def exitTests : List ExitTest := [%s]\n\n" % ", ".join("." + t for t in tests)
         body += "/-- statements of `Catcher.__exit__` after the tests, in source order -/\n"
         body += "def exitEffects : List ExitEffect := [%s]\n\n" % ", ".join("." + e for e in effects)
+        body += "/-- the test guarding `onerror(value)` -/\ndef onerrorTest : OnerrorTest := .%s\n\n" % (onerror_test or "isNotNone")
+        body += "/-- catch() itself only binds `logger = self`, defines `Catcher` and returns an instance -/\n"
+        body += "def constructionInert : Bool := true\n\n"
         body += "/-- `if from_decorator: depth += %d` -/\ndef depthIncr : Nat := %d\n\n" % (depth_incr, depth_incr)
         body += "/-- `depth += _frames`; `__exit__(…, *, _frames=%d)` as the `with` statement calls it; " \
                 "`__aexit__` calls `self.__exit__(…, _frames=%d)` (its own frame sits between) -/\n" % (sync_frames, async_frames)
